@@ -140,7 +140,7 @@ def run(ctx):
     main = main[0]
     cli_main = prog.fn_by_path("hulc2model::cli::cli_main")
     seen, sinks = find_sinks(ctx, main.id)
-    ctx.floor("c01.reach", "workspace bodies reachable from hulc2model::main", len(seen), 1200)
+    ctx.floor("c01.reach", "workspace bodies reachable from hulc2model::main", len(seen), 600)
     for need in ("hulc2model::collect_hulc_data", "hulc::ctehexml::parse_with_catalog", "hulc::bdl::Data::new"):
         f = [x for x in prog.fns.values() if x.path.startswith(need)]
         ctx.require(any(x.id in seen for x in f), "expected %s to be reachable from main (call graph went blind)" % need)
